@@ -1421,3 +1421,246 @@ Proof.
   rewrite Ep. cbv iota. cbn [app put_from]. apply py_slice1_cons; [|exact Hn].
   unfold zlen in *. now rewrite map_length.
 Qed.
+
+(* ================================================================== copies are independent *)
+Lemma nth_upd_same {A} n (x d : A) l : (n < length l)%nat -> nth n (upd_nth n x l) d = x.
+Proof. revert l; induction n as [|n IH]; intros [|y l] H; simpl in *; try lia; [reflexivity|apply IH; lia]. Qed.
+Lemma nth_upd_other {A} n k (x d : A) l : n <> k -> nth k (upd_nth n x l) d = nth k l d.
+Proof.
+  revert k l; induction n as [|n IH]; intros k [|y l] H; simpl; try reflexivity.
+  - destruct k; [congruence|reflexivity].
+  - destruct k; [reflexivity|]. apply IH. congruence.
+Qed.
+Lemma upd_nth_length {A} n (x : A) l : length (upd_nth n x l) = length l.
+Proof. revert l; induction n as [|n IH]; intros [|y l]; simpl; auto. Qed.
+
+Lemma mutate_view_self s r m : ref_ok s r -> view (mutate s r m) r = mutated_view (view s r) m.
+Proof.
+  intros [Hb He]. unfold view. destruct m; cbn [mutate mutated_view s_bufs s_lists];
+    rewrite ?nth_upd_same by assumption; reflexivity.
+Qed.
+
+Lemma mutate_view_other s r r' m : r_buf r' <> r_buf r -> r_exts r' <> r_exts r ->
+  view (mutate s r m) r' = view s r'.
+Proof.
+  intros Hb He. unfold view. destruct m; cbn [mutate s_bufs s_lists];
+    rewrite ?nth_upd_other by congruence; reflexivity.
+Qed.
+
+Lemma mutate_ok s r r' m : ref_ok s r' -> ref_ok (mutate s r m) r'.
+Proof. intros [A B]. unfold ref_ok. destruct m; cbn [mutate s_bufs s_lists]; rewrite ?upd_nth_length; split; assumption. Qed.
+
+(* a copy gets fresh ids, shows the same contents, leaves every existing object as it was, and no
+   sequence of mutations through either of the two ever shows through the other *)
+Lemma copy_fresh s r : ref_ok s r ->
+  let (s', r') := copy_ref s r in
+  r_buf r' <> r_buf r /\ r_exts r' <> r_exts r /\ ref_ok s' r' /\ ref_ok s' r
+  /\ view s' r' = view s r /\ (forall q, ref_ok s q -> view s' q = view s q /\ r_buf r' <> r_buf q /\ r_exts r' <> r_exts q).
+Proof.
+  intros [Hb He]. unfold copy_ref, new_header. cbn [r_buf r_exts r_be].
+  repeat split; cbn [s_bufs s_lists r_buf r_exts]; rewrite ?app_length; cbn [length]; try lia.
+  - unfold view. cbn [s_bufs s_lists r_buf r_exts r_be].
+    rewrite !app_nth2, !Nat.sub_diag by lia. reflexivity.
+  - destruct H as [Qb Qe]. unfold view. cbn [s_bufs s_lists]. now rewrite !app_nth1 by assumption.
+  - destruct H. lia.
+  - destruct H. lia.
+Qed.
+
+Fixpoint mutate_all (s : store) (ms : list (bool * mutation)) (r r' : href) : store :=
+  match ms with
+  | [] => s
+  | (true, m) :: t => mutate_all (mutate s r m) t r r'       (* through the original *)
+  | (false, m) :: t => mutate_all (mutate s r' m) t r r'     (* through the copy *)
+  end.
+Fixpoint apply_own (v : bool * list Z * list extn) (who : bool) (ms : list (bool * mutation)) :=
+  match ms with
+  | [] => v
+  | (w, m) :: t => apply_own (if Bool.eqb w who then mutated_view v m else v) who t
+  end.
+
+Lemma copy_independent s r ms : ref_ok s r ->
+  let (s', r') := copy_ref s r in
+  view (mutate_all s' ms r r') r = apply_own (view s r) true ms
+  /\ view (mutate_all s' ms r r') r' = apply_own (view s r) false ms.
+Proof.
+  intros Hok. pose proof (copy_fresh s r Hok) as F. destruct (copy_ref s r) as [s' r'].
+  destruct F as (Nb & Ne & Ok' & Ok & V' & Hq). destruct (Hq r Hok) as [V _]. rewrite <- V' at 2. rewrite <- V.
+  clear V V' Hq Hok. revert s' Ok' Ok. induction ms as [|[w m] t IH]; intros s' Ok' Ok; [split; reflexivity|].
+  destruct w; cbn [mutate_all apply_own Bool.eqb].
+  - destruct (IH (mutate s' r m) (mutate_ok _ _ _ _ Ok') (mutate_ok _ _ _ _ Ok)) as [A B].
+    rewrite A, B. rewrite mutate_view_self by assumption. rewrite mutate_view_other by congruence. split; reflexivity.
+  - destruct (IH (mutate s' r' m) (mutate_ok _ _ _ _ Ok') (mutate_ok _ _ _ _ Ok)) as [A B].
+    rewrite A, B. rewrite mutate_view_self by assumption. rewrite mutate_view_other by congruence. split; reflexivity.
+Qed.
+
+(* ================================================================== conversions with check=True *)
+Definition repaired_fields : list Z :=
+  [f_sizeof_hdr; f_bitpix; f_pixdim; f_vox_offset; f_qform_code; f_sform_code; f_eol_check; f_version].
+
+Lemma writeback_other v h i : memZ i repaired_fields = false -> getf i (writeback v h) = getf i h.
+Proof.
+  intros H. assert (N : forall j, In j repaired_fields -> i <> j) by (intros j Hj; eapply memZ_false_neq; eauto).
+  unfold writeback. rewrite !getf_setf_other by (apply N; simpl; tauto). reflexivity.
+Qed.
+
+Lemma check_hdr_other c f h h' rs i : check_hdr c f h = Some (h', rs) -> memZ i repaired_fields = false ->
+  getf i h' = getf i h.
+Proof.
+  unfold check_hdr. destruct (run_checks _ _ _ _) as [[v r]|]; [|discriminate]. intros E Hi.
+  inversion E; subst. now apply writeback_other.
+Qed.
+
+(* from_header(check=True) = from_header(check=False), then check_fix, refused when a report reaches level 40 *)
+Lemma from_header_check_split src dst h h' : from_header src dst true h = COk h' ->
+  exists h0 rs, from_header src dst false h = COk h0 /\ check_hdr dst true h0 = Some (h', rs)
+    /\ existsb (fun r : report => 40 <=? fst (fst r)) rs = false.
+Proof.
+  unfold from_header. destruct (negb (dim0_in_scope src h)); [discriminate|].
+  destruct (set_dtype _ _ _ _) as [o1|]; [|discriminate]. destruct (get_shape src h) as [sh|]; [|discriminate].
+  destruct (set_shape dst sh o1) as [o2|]; [|discriminate].
+  destruct (set_zooms _ _ _ o2) as [o3|]; [|discriminate].
+  destruct (check_hdr dst true o3) as [[o4 rs]|] eqn:C; [|discriminate].
+  destruct (existsb _ rs) eqn:X; [discriminate|]. intros E. inversion E; subst.
+  exists o3, rs. repeat split; assumption.
+Qed.
+
+Lemma get_shape_ext c h1 h2 : getf f_dim h1 = getf f_dim h2 -> getf f_glmin h1 = getf f_glmin h2 ->
+  get_shape c h1 = get_shape c h2.
+Proof. intros A B. unfold get_shape. now rewrite A, B. Qed.
+
+(* ================================================================== conversions: any shape, FreeSurfer conventions *)
+Definition storable (w : nat) (shape : list Z) : Prop :=
+  shape <> [] /\ zlen shape <= 7 /\ Forall (fun x => fits_signed w x = true) shape.
+
+Lemma map_to_of_signed_fits w shape : (w = 2 \/ w = 8)%nat -> Forall (fun x => fits_signed w x = true) shape ->
+  map (to_signed w) (map (of_signed w) shape) = shape.
+Proof.
+  intros Hw H. induction H as [|x l Hx Hl IH]; [reflexivity|]. cbn [map]. rewrite IH. f_equal.
+  apply to_of_signed; [destruct Hw; lia|]. unfold fits_signed in Hx. lia.
+Qed.
+
+(* what AnalyzeHeader.get_data_shape reads from a dim field written by set_data_shape *)
+Definition raw_shape (c : hclass) (h : hdr) : list Z :=
+  let dims := map (to_signed (dim_w c)) (getf f_dim h) in
+  if hd 0 dims =? 0 then [0] else py_slice1 (hd 0 dims + 1) dims.
+
+Lemma raw_shape_of_dims c h shape : analyze_family c = true -> storable (dim_w c) shape ->
+  getf f_dim h = zlen shape :: map (of_signed (dim_w c)) shape ++ skipn (length shape) (repeat 1 7) ->
+  raw_shape c h = shape.
+Proof.
+  intros Hf (Hne & Hlen & Hr) Hd. pose proof (dim_w_family c Hf) as Hw.
+  assert (Hn : 0 < zlen shape) by (destruct shape; [congruence|unfold zlen; cbn [length]; lia]).
+  unfold raw_shape. rewrite Hd. cbn [map hd]. rewrite map_app, (map_to_of_signed_fits _ _ Hw Hr).
+  rewrite skipn_repeat, (map_to_signed_ones _ _ Hw). rewrite (to_signed_id _ _ Hw) by lia.
+  destruct (Z.eqb_spec (zlen shape) 0); [lia|].
+  unfold py_slice1. replace (zlen (zlen shape :: shape ++ repeat 1 (7 - length shape))) with 8
+    by (unfold zlen in *; cbn [length]; rewrite app_length, repeat_length; lia).
+  destruct (Z.ltb_spec (zlen shape + 1) 0); [lia|]. rewrite Z.min_l by lia.
+  destruct (Z.leb_spec (zlen shape + 1) 1); [lia|].
+  replace (zlen shape + 1 - 1) with (zlen shape) by lia.
+  change (drop 1 (zlen shape :: shape ++ repeat 1 (7 - length shape))) with (shape ++ repeat 1 (7 - length shape)).
+  apply take_app_exact.
+Qed.
+
+Lemma get_shape_raw c h : get_shape c h =
+  let shape := raw_shape c h in
+  if is_nifti1 c then
+    if prefix3 shape (-1) 1 1 then
+      let vl := sval 4 (getf f_glmin h) in
+      if vl =? 0 then CErr ErrShape else COk (vl :: 1 :: 1 :: skipn 3 shape)
+    else if prefix3 shape 27307 1 6 then COk (163842 :: 1 :: 1 :: skipn 3 shape)
+    else COk shape
+  else COk shape.
+Proof. reflexivity. Qed.
+
+Lemma all_fits_forall w shape : all (fits_signed w) shape = true -> Forall (fun x => fits_signed w x = true) shape.
+Proof. unfold all. rewrite forallb_forall. intros H. apply Forall_forall. exact H. Qed.
+
+Lemma set_shape_plain_spec c stored o o2 : analyze_family c = true -> hasf f_dim o = true -> stored <> [] ->
+  set_shape_plain c stored o = COk o2 ->
+  raw_shape c o2 = stored /\ getf f_glmin o2 = getf f_glmin o.
+Proof.
+  intros Hf Hd Hne H. unfold set_shape_plain in H.
+  destruct (all (fits_signed (dim_w c)) stored) eqn:A; [|discriminate]. cbn [negb orb] in H.
+  destruct (Z.ltb_spec 7 (zlen stored)); [discriminate|]. inversion H; subst o2. clear H. split.
+  - apply raw_shape_of_dims; [assumption|repeat split; [assumption|lia|now apply all_fits_forall]|].
+    rewrite getf_setf_other by ids_neq. rewrite getf_setf_same by assumption. cbn [put_from]. now rewrite map_length.
+  - now rewrite !getf_setf_other by ids_neq.
+Qed.
+
+Definition readable (c : hclass) (shape : list Z) : Prop :=
+  is_nifti1 c = true -> prefix3 shape (-1) 1 1 = false /\ prefix3 shape 27307 1 6 = false.
+
+(* set_data_shape then get_data_shape, with the FreeSurfer large-vector (dim[1] = -1, length in glmin) and
+   ico7 (163842 = 27307 x 6) conventions of NIfTI-1 *)
+Lemma set_get_shape c shape o o2 : analyze_family c = true -> hasf f_dim o = true ->
+  (is_nifti1 c = true -> hasf f_glmin o = true) -> shape <> [] -> readable c shape ->
+  set_shape c shape o = COk o2 -> get_shape c o2 = COk shape.
+Proof.
+  intros Hf Hd Hg Hne Hrd H. rewrite get_shape_raw. cbv zeta. unfold set_shape in H.
+  destruct (is_nifti1 c) eqn:N.
+  2:{ destruct (set_shape_plain_spec c shape o o2 Hf Hd Hne H) as [R _]. now rewrite R. }
+  destruct (Hrd N) as [Hm1 H27]. specialize (Hg eq_refl).
+  destruct (prefix3 shape 163842 1 1) eqn:P.
+  - (* ico7 *)
+    destruct shape as [|x [|y [|z r]]]; try discriminate. cbn [prefix3] in P.
+    apply andb_prop in P as [P Pz]. apply andb_prop in P as [Px Py].
+    apply Z.eqb_eq in Px, Py, Pz. subst. cbn [skipn] in H.
+    destruct (set_shape_plain_spec c (27307 :: 1 :: 6 :: r) o o2 Hf Hd ltac:(discriminate) H) as [R _].
+    rewrite R. reflexivity.
+  - assert (Plain : set_shape_plain c shape o = COk o2 -> raw_shape c o2 = shape ->
+                    (if prefix3 (raw_shape c o2) (-1) 1 1 then
+                       if sval 4 (getf f_glmin o2) =? 0 then CErr ErrShape
+                       else COk (sval 4 (getf f_glmin o2) :: 1 :: 1 :: skipn 3 (raw_shape c o2))
+                     else if prefix3 (raw_shape c o2) 27307 1 6 then COk (163842 :: 1 :: 1 :: skipn 3 (raw_shape c o2))
+                     else COk (raw_shape c o2)) = COk shape)
+      by (intros _ R; rewrite R, Hm1, H27; reflexivity).
+    destruct shape as [|x [|y [|z r]]];
+      try (destruct (set_shape_plain_spec c _ o o2 Hf Hd Hne H) as [R _]; now apply Plain).
+    + destruct y as [|p|p]; try (destruct (set_shape_plain_spec c _ o o2 Hf Hd Hne H) as [R _]; now apply Plain).
+      destruct p; (destruct (set_shape_plain_spec c _ o o2 Hf Hd Hne H) as [R _]; now apply Plain).
+    + destruct y as [|p|p]; try (destruct (set_shape_plain_spec c _ o o2 Hf Hd Hne H) as [R _]; now apply Plain).
+      destruct p; try (destruct (set_shape_plain_spec c _ o o2 Hf Hd Hne H) as [R _]; now apply Plain).
+      destruct z as [|q|q]; try (destruct (set_shape_plain_spec c _ o o2 Hf Hd Hne H) as [R _]; now apply Plain).
+      destruct q; try (destruct (set_shape_plain_spec c _ o o2 Hf Hd Hne H) as [R _]; now apply Plain).
+      destruct (pow256 (dim_w c) / 2 - 1 <? x) eqn:Big;
+        [|destruct (set_shape_plain_spec c _ o o2 Hf Hd Hne H) as [R _]; now apply Plain].
+      (* large vector *)
+      destruct (fits_signed 4 x) eqn:F4; [|discriminate].
+      assert (Hd' : hasf f_dim (setf f_glmin [of_signed 4 x] o) = true) by now rewrite hasf_setf.
+      destruct (set_shape_plain_spec c (-1 :: 1 :: 1 :: r) _ o2 Hf Hd' ltac:(discriminate) H) as [R G].
+      rewrite R. cbn [prefix3 Z.eqb Pos.eqb andb skipn]. rewrite G, getf_setf_same by assumption.
+      assert (X : sval 4 [of_signed 4 x] = x).
+      { unfold sval. cbn [hd]. apply to_of_signed; [lia|]. unfold fits_signed in F4. lia. }
+      rewrite X. rewrite (dim_w_nifti1 c N) in Big. change (pow256 2 / 2 - 1) with 32767 in Big.
+      destruct (Z.eqb_spec x 0); [lia|reflexivity].
+Qed.
+
+Lemma nifti1_has_glmin c : is_nifti1 c = true -> memZ f_glmin (map fid (layout_of c)) = true.
+Proof. destruct c; try discriminate; intros _; vm_compute; reflexivity. Qed.
+
+(* dst.from_header(src, check=False) keeps the shape: EVERY shape, including those stored with the
+   FreeSurfer conventions, except (NIfTI-1 destination) shapes that NIfTI-1 cannot tell from a
+   convention: (-1, 1, 1, ...) and (27307, 1, 6, ...) *)
+Lemma convert_preserves_shape_any src dst h h' shape : analyze_family dst = true ->
+  from_header src dst false h = COk h' -> get_shape src h = COk shape -> shape <> [] -> readable dst shape ->
+  get_shape dst h' = COk shape.
+Proof.
+  intros Hfam H Hs Hne Hrd. unfold from_header in H.
+  destruct (negb (dim0_in_scope src h)); [discriminate|].
+  set (obj0 := clean_after_mapping dst (apply_mapping (layout_of src) (layout_of dst) h (default_hdr dst))) in *.
+  destruct (set_dtype src dst (sval 2 (getf f_datatype h)) obj0) as [obj1|] eqn:E1; [|discriminate].
+  rewrite Hs in H. destruct (set_shape dst shape obj1) as [obj2|] eqn:E2; [|discriminate].
+  destruct (set_zooms dst (pix_w src) (get_zooms src h) obj2) as [obj3|] eqn:E3; [|discriminate].
+  inversion H; subst h'. clear H.
+  assert (K1 : map fst obj1 = map fid (layout_of dst)).
+  { unfold set_dtype in E1. destruct (lookup _ (dtcodes_of src)); [|discriminate].
+    destruct (lookup _ (dtcodes_of dst)); [|discriminate]. destruct (_ =? 0); [discriminate|].
+    inversion E1; subst. rewrite !setf_keys. apply obj_keys_after_mapping. }
+  assert (G : get_shape dst obj3 = get_shape dst obj2).
+  { unfold set_zooms in E3. repeat (destruct (_ : bool) in E3; try discriminate). inversion E3; subst.
+    apply get_shape_ext; apply getf_setf_other; ids_neq. }
+  rewrite G. apply (set_get_shape dst shape obj1 obj2); try assumption.
+  - rewrite hasf_keys, K1. apply (family_has_dim dst Hfam).
+  - intros N. rewrite hasf_keys, K1. now apply nifti1_has_glmin.
+Qed.
